@@ -66,7 +66,9 @@ def observe(q):
         out.update(kind=1, codes=code_bytes(q._data.unpack()), scale=to_bits(q._scale), zp=code_bytes(q._zeropoint), group=q._group_size,
                    packed_shape=list(q._data._data.shape), zp_dtype=str(q._zeropoint.dtype))
     out["scale_dtype"] = str(q._scale.dtype)
-    out["deq"] = to_bits(q.dequantize())
+    d_ = q.dequantize()
+    out["deq"] = to_bits(d_)
+    out["deq_dtype"] = str(d_.dtype).replace("torch.", "")
     return out
 
 
@@ -125,7 +127,7 @@ def run(call):
         if call.get("requant"):
             r["requant_codes"] = observe(quantize_activation(q.dequantize(), q.qtype, s))["codes"]
     elif fn == "sym_quantize":
-        s = from_bits(call["scale_bits"], call["scale_shape"], call["dtype"])
+        s = from_bits(call["scale_bits"], call["scale_shape"], call.get("scale_dtype") or call["dtype"])
         q = SymmetricQuantizer.apply(t, QT[call["qtype"]], call["axis"], s)
         r = observe(q)
         if call.get("requant"):
